@@ -1,6 +1,7 @@
 import TvCore.Props.WorldLinks
 import TvCore.Props.C03
 import TvCore.Props.C03Sets
+import TvCore.Props.LinksWorld
 #print axioms TV.C03.fixed
 #print axioms TV.C03.witness_rand_overrides_explicit
 #print axioms TV.C03.partial_nocoins
@@ -16,3 +17,13 @@ import TvCore.Props.C03Sets
 #print axioms TV.C03Sets.partitionOneway_sets
 #print axioms TV.C03Sets.inner_sets
 #print axioms TV.C03Sets.partition_oneway_sets
+#print axioms TV.LW.step_link
+#print axioms TV.LW.step_frame
+#print axioms TV.LW.turnStep_out
+#print axioms TV.LW.inv2_init
+#print axioms TV.LinksWorld.partitioned_never_delivered
+#print axioms TV.LinksWorld.partitioned_send_refused
+#print axioms TV.LinksWorld.inflight_dropped
+#print axioms TV.LinksWorld.inflight_dropped_twoway
+#print axioms TV.LinksWorld.other_links_unaffected
+#print axioms TV.LinksWorld.ctl_ops_empty_elsewhere
